@@ -196,3 +196,40 @@ theorem subOf_restOf_braces (c : Char) {mid a : Str} (Y : Str) (hm : NoBrace mid
   exact ⟨List.take_left' rfl, List.drop_left' rfl⟩
 
 end CV.Template
+
+theorem containsStr_name (o : Op) (n : Str) (hall : ∀ x ∈ n, isNameChar x = true) : containsStr o.str n = false := by
+  obtain ⟨p0, pt, hp, hp0⟩ := op_head o
+  rw [hp, containsStr, indexOf_none_of_no_head]
+  · rfl
+  · intro c hc
+    have := not_nameChar_special (hall c hc)
+    rcases hp0 with rfl | rfl | rfl | rfl <;> simp [this]
+
+theorem noBrace_name {n : Str} (hall : ∀ x ∈ n, isNameChar x = true) : NoBrace n := by
+  intro c hc
+  have := not_nameChar_special (hall c hc)
+  exact ⟨this.2.1, this.2.2.1⟩
+
+theorem rrepl_braced (env : Env) (n : Str) (hn : validName n = true) :
+    rrepl env ('$' :: '{' :: (n ++ ['}'])) = .ok ((env n).getD []) := by
+  obtain ⟨c, cs, rfl, hc, hall⟩ := validName_cases hn
+  have hcs : NoBrace cs := noBrace_name (fun x hx => hall x (List.mem_cons_of_mem _ hx))
+  have hsr := subOf_restOf_braces c (mid := cs) (a := []) [] hcs neutral_nil
+  simp only [List.nil_append] at hsr
+  rw [rrepl, replK]
+  simp only [List.cons_append]
+  rw [hsr.1]
+  have hm := matchDollar_brace ((c :: cs) ++ '}' :: [])
+  rw [matchBraced_var (c :: cs) [] hn] at hm
+  simp only [List.cons_append] at hm
+  rw [hm]
+  simp only [containsStr_name _ _ hall]
+  rfl
+
+theorem run_braced (env : Env) (n X : Str) (hn : validName n = true) :
+    run env ('$' :: '{' :: (n ++ '}' :: X)) = seq (.ok ((env n).getD [])) (run env X) := by
+  have hm := matchDollar_brace (n ++ '}' :: X)
+  rw [matchBraced_var n X hn] at hm
+  rw [run_dollar_some env _ hm, rrepl_braced env n hn]
+
+end CV.Template
